@@ -72,7 +72,7 @@ class ListHooks(Hooks):
             elif x[0] in ('fresh', 'unterm', 'linked', 'dangling', 'freed', 'relinked', 'tailis'):
                 if x[1] != v:
                     out.add(x)
-                elif keep is not None:
+                elif keep is not None and x[0] in ('fresh', 'unterm', 'linked', 'dangling'):
                     out.add((x[0], keep))
                 elif x[0] == 'dangling':
                     self.bad.append((loc, 'unlink-before-free', v, 'the name `%s` is reassigned while `%s->next` still points to a freed node' % (v, v)))
